@@ -104,3 +104,18 @@ def other_format_frames(a, rng):
         long_(21, enc_squawk(2, 0, 0, 0), mb60(500, 280, 190, -20, -21), a),
         long_(20, enc_alt13(33000), mb30(1, 0), a),
     ]
+
+
+def seg_group(prop, lines, opts):
+    """the same lines one per reader run (slot 0) and as a single run (slot 1); TLC compares the two tables under `prop`"""
+    return [reset(opts, slot=0), reset(opts, slot=1)] + [run1(l, slot=0) for l in lines] + [runn(lines, slot=1, tag={'pair': 'segp', 'prop': prop})]
+
+
+def returning(rng, frames, n):
+    """a sequence over a few distinct frames that keeps coming back to earlier ones: A B A C B A ..."""
+    k = min(len(frames), rng.randrange(2, 5))
+    base = rng.sample(frames, k)
+    seq = [base[0], base[1], base[0]]
+    while len(seq) < n:
+        seq.append(rng.choice(base))
+    return seq
